@@ -12,7 +12,10 @@ VARIABLE c
 vars == <<c>>
 
 TokQ == {<<97>>, <<98>>, <<49, 50>>, <<48, 48, 55>>, <<>>}                         \* a b 12 007 ""
-TokT == TokQ \cup {<<49, 46, 53>>, <<118, 49, 50>>, <<97, 98>>, <<45, 51>>, <<97, 46, 120>>}   \* 1.5 v12 ab -3 a.x
+TokT == TokQ \cup {<<49, 46, 53>>, <<118, 49, 50>>, <<97, 98>>, <<45, 51>>, <<97, 46, 120>>, <<48, 55>>}   \* 1.5 v12 ab -3 a.x 07
+\* fixed_digits neighbourhood: exactly N digits with leading zeros (07, 00), without (12), N-1 (7), N+1 (007)
+TokZ == {<<97>>, <<48, 55>>, <<48, 48>>, <<49, 50>>, <<55>>, <<48, 48, 55>>, <<>>}                 \* a 07 00 12 7 007 ""
+TokZ3 == {<<97>>, <<98>>, <<48, 55>>, <<49, 50>>, <<48, 48, 55>>, <<>>}                            \* a b 07 12 007 ""
 
 Distinct(s) == \A i, j \in 1..Len(s) : i # j => s[i] # s[j]
 IdxSeqs == {s \in SeqsUpTo(RuleIds, K) : s # <<>> /\ Distinct(s)}
